@@ -1020,7 +1020,13 @@ def scope_exit_monitor(env, ctx, key, scope, body_exc, outer_exc):
         if own and foreign:
             # a signal that is not this block's own (cancellation of the owning task, abort of
             # an enclosing block, close) struck the body or the graceful shutdown and passes on
+            # - unless a child failed with a privileged exception: those are never lost
             sess.stats['c05_foreign_signal_exits'] += 1
+            if privileged:
+                sess.violation('c05:privileged-not-promoted',
+                               'block %s: a child failed with privileged %s, the block was '
+                               'struck by a %s and ended with that - the privileged failure is '
+                               'lost' % (key, exc_name(privileged[0]), describe(outer_exc)))
         elif own:
             if privileged:
                 if outer_exc is not privileged[0]:
@@ -1053,7 +1059,10 @@ def scope_exit_monitor(env, ctx, key, scope, body_exc, outer_exc):
                 sess.violation('c05:own-signal-escaped',
                                'block %s ended with its own cancel signal' % key)
         else:
-            allowed = [body_exc] + privileged
+            # (a privileged failure of a child takes precedence over a regular exception of
+            # the body; between two privileged ones the statement does not choose)
+            allowed = privileged if privileged and not isinstance(body_exc, PRIVILEGED) \
+                else [body_exc] + privileged
             if not any(outer_exc is exc for exc in allowed):
                 sess.violation('c05:body-exception-replaced',
                                'block %s: the body ended with %s but the block ended with %s'
